@@ -480,6 +480,27 @@ def run():
                             cases.append(dict(id='exh-%s-%d-%d-%d' % (q, wi, ei, k), world=world, calls=[c1, c2],
                                               src='all 2-call histories over Calls(disk) of Repository_%s.cfg' % q))
                             k += 1
+        # -------------------------------------------------------- S->C 2b: directed lazy -> eager histories
+        # load every file of every exported world lazily, then ask for it eagerly (same version / any
+        # version / from memory), then query: covers eager upgrades that succeed AND ones that fail on
+        # a missing, mismatching or conflicting dependency (what was loaded must stay loaded)
+        seen_w = set()
+        for c in list(cases):
+            if not c['id'].startswith('exh-'):
+                continue
+            w = c['world']
+            wk = stable_hash(w)
+            if wk in seen_w:
+                continue
+            seen_w.add(wk)
+            for fi, f in enumerate(w['disk']):
+                for vi, second in enumerate([call('Require', f['fns'], f['fver'], False),
+                                             call('Require', f['fns'], '', False),
+                                             call('LoadMem', lazy=False, dir=f['dir'], fns=f['fns'], fver=f['fver'])]):
+                    cases.append(dict(id='lazyup-%s-%d-%d' % (wk, fi, vi), world=w,
+                                      calls=[call('RequirePrivate', f['fns'], f['fver'], True, f['dir']), second,
+                                             call('LoadedNamespaces'), call('TypelibPath', f['fns'])],
+                                      src='directed: lazy load, eager request, queries'))
         if ck.quick:
             # quick: a seeded sample of the 2-call histories (thorough replays all of them)
             exh = [c for c in cases if c['id'].startswith('exh-')]
